@@ -85,7 +85,7 @@ CLAIMED = {
     engine="driver-ai"),
  "C04": dict(
     category="other",
-    text="Clauses of 'key generation is the FIPS 204 function of the seed', decided for every seed / generator output and all three parameter sets from one abstract run of keygen_from_seed and try_keygen_with_rng: K1 one 32-byte generator request fills xi, both entry points run the same key_gen_internal instance once and create identical hash instances, a failing generator gives Err with nothing computed; K2 (rho, rho', K) = H(xi|k|l) read as 32|64|32 bytes with the Table 1 constants in this order; K3 ExpandA: k*l SHAKE128 instances in row-major order absorbing rho|s|r; K4 ExpandS: l+k SHAKE256 instances absorbing rho'|IntegerToBytes(r,2); K5 tr = H(whole pkEncode(rho,t1), 64); K6 exact-copy provenance: pk.rho and sk.rho are H(xi|k|l)[0..32], sk.K is [96..128], pk.tr and sk.tr the 64 bytes of the tr hash, none rewritten; K7 CoeffFromThreeBytes (all 2^24 triples incl. the q-1/q boundary), CoeffFromHalfByte (both eta), Power2Round (all of Z_q) equal their FIPS definitions (C15 engine); K8 Power2Round applied once after full reduction of all coefficients. The ring arithmetic t = A s1 + s2 and the serialisers' inverse NTT/Montgomery precompute are not decided, so byte equality with pkEncode/skEncode is not established.",
+    text="Clauses of 'key generation is the FIPS 204 function of the seed', decided for every seed / generator output and all three parameter sets from one abstract run of keygen_from_seed and try_keygen_with_rng: K1 one 32-byte generator request fills xi, both entry points run the same key_gen_internal instance once and create identical hash instances, a failing generator gives Err with nothing computed; K2 (rho, rho', K) = H(xi|k|l) read as 32|64|32 bytes with the Table 1 constants in this order; K3 ExpandA: k*l SHAKE128 instances in row-major order absorbing rho|s|r; K4 ExpandS: l+k SHAKE256 instances absorbing rho'|IntegerToBytes(r,2); K5 tr = H(whole pkEncode(rho,t1), 64); K6 exact-copy provenance: pk.rho and sk.rho are H(xi|k|l)[0..32], sk.K is [96..128], pk.tr and sk.tr the 64 bytes of the tr hash, none rewritten; K7 CoeffFromThreeBytes (all 2^24 triples incl. the q-1/q boundary), CoeffFromHalfByte (both eta), Power2Round (all of Z_q) equal their FIPS definitions (C15 engine); K8 Power2Round applied once after full reduction of all coefficients; K9 a symbolic run of keygen_from_seed followed by into_bytes (sampled coefficients and Power2Round outputs as named symbols, linear forms modulo q through the transforms) shows pkEncode receives exactly t1 and skEncode exactly the sampled s1, s2 (t0 congruent with unit coefficient): the NTT/Montgomery precompute and its inverse are transparent. The ring arithmetic t = A s1 + s2 is not decided, so byte equality with pkEncode/skEncode is not established.",
     design_ref="DESIGN.md §4 C04",
     note="Level 'other': necessary structural clauses. Trusted: abstract interpreter soundness, hash model, lib/spec.py transcription.",
     technique="abstract interpretation over monomorphic MIR: symbolic hash absorb lists and read offsets, generator probes, exact-copy provenance tags on byte arrays; piecewise-affine kernel exactness",
@@ -110,6 +110,13 @@ CLAIMED = {
     design_ref="DESIGN.md §4 C05",
     note="Level 'other'. The malleability classes the property names (hint counters, zero padding) are decided for all members of each class; the class family covers the taxonomy, not all byte strings. Quick: hint/layout/key rules on all three sets, verify-side rules on ML-DSA-44.",
     technique="abstract interpretation on abstract input classes (definite rejection) + slice-range tiling + whole-input absorb rules with exact-copy provenance",
+    engine="driver-ai"),
+ "C09": dict(
+    category="other",
+    text="For EVERY public-key byte string and EVERY accepted private-key byte string, all three sets: P1 PublicKey::try_from_bytes is total and no panic/overflow/self-check obligation is violated along try_from_bytes -> into_bytes (the skEncode range self-checks C13 assumes are discharged here); P2 rho (and K, tr) are exact copies of their input byte ranges after deserialisation and are copied unmodified into the same ranges by into_bytes (exact-copy provenance tags / segments); P3 the ring arithmetic: one symbolic abstract run of try_from_bytes followed by into_bytes in which every decoded coefficient is a named symbol and linear forms modulo q are carried through NTT, the Montgomery conversions, the 2^d scaling, inverse NTT, the centring branch and the final shift - at the call of pkEncode/skEncode every one of the 256k (resp. 256(l+2k)) coefficients is EXACTLY its own symbol, in order, so t1' = t1 on [0,1023]^(256k) and (s1,s2,t0)' = (s1,s2,t0) on all accepted values including every extremal pattern; P4 encoder/decoder byte ranges identical, tiling, FIPS layout, and each field decoder accepts exactly the emitted coefficient range. Not decided: BitPack(BitUnpack(v)) = v bit for bit, and behavioural equality of a re-deserialised generated key beyond P2-P4.",
+    design_ref="DESIGN.md §4 C09, §2.5",
+    note="Level 'other' only because the bit-level inverse of the field codecs is outside the domains; P3 is a proof over all keys (symbols, not samples). Trusted: abstract interpreter soundness incl. the linear-congruence domain and exactification by range.",
+    technique="abstract interpretation over monomorphic MIR with named symbols and linear forms modulo q (LIN tier: region-result lifting through atom definitions, exactification), root chaining, exact-copy provenance",
     engine="driver-ai"),
  "C08": dict(
     category="other",
@@ -155,7 +162,7 @@ man = {
  "engines": [
    {"name": "cfg-matrix", "path": "checks/c17.py", "serves_properties": ["C17"], "kind_free_text": "feature-configuration matrix: rustc lints + MIR fingerprints"},
    {"name": "driver-facts", "path": "driver/src/facts.rs", "serves_properties": ["C16", "C17"], "kind_free_text": "type/layout/drop-glue/call-graph facts"},
-   {"name": "driver-ai", "path": "driver/src/ai/", "serves_properties": ["C01", "C02", "C03", "C04", "C05", "C11", "C06", "C07", "C08", "C10", "C12", "C13", "C14", "C15", "C18"], "kind_free_text": "abstract interpreter over monomorphic MIR"},
+   {"name": "driver-ai", "path": "driver/src/ai/", "serves_properties": ["C01", "C02", "C03", "C04", "C05", "C09", "C11", "C06", "C07", "C08", "C10", "C12", "C13", "C14", "C15", "C18"], "kind_free_text": "abstract interpreter over monomorphic MIR"},
    {"name": "driver", "path": "driver/", "serves_properties": sorted(CLAIMED), "kind_free_text": "rustc_private driver over type-checked monomorphic MIR (facts, call graph, abstract interpretation)"},
  ],
  "checks": checks,
